@@ -287,6 +287,17 @@ class Normalizer(ast.NodeTransformer):
 
     def _visit_For(self, node):
         self.generic_visit(node)
+        # for v in (A if c else B): BODY   ->   if c: for v in A: BODY  else: for v in B: BODY ;   a loop over range(0) runs never
+        if isinstance(node.iter, ast.IfExp) and not node.orelse and sum(1 for b in node.body for _n in ast.walk(b)) <= 150:
+            def _loop(it_):
+                if isinstance(it_, ast.Call) and isinstance(it_.func, ast.Name) and it_.func.id == "range" and len(it_.args) == 1 and isinstance(it_.args[0], ast.Constant) and it_.args[0].value == 0:
+                    return [ast.copy_location(ast.Pass(), node)]
+                lp = ast.copy_location(ast.For(target=copy.deepcopy(node.target), iter=it_, body=copy.deepcopy(node.body), orelse=[]), node)
+                r = self._visit_For(lp)
+                return r if isinstance(r, list) else [r]
+
+            new = ast.copy_location(ast.If(test=self._test(node.iter.test), body=_loop(node.iter.body), orelse=_loop(node.iter.orelse)), node)
+            return ast.fix_missing_locations(new)
         # for i, x in enumerate(S[a:], a): BODY   ->   for i in range(a, len(S)): BODY[x := S[i]]      (a is a position: >= 0)
         it = node.iter
         if (
@@ -373,6 +384,38 @@ class Normalizer(ast.NodeTransformer):
     def visit_While(self, node):
         self.generic_visit(node)
         node.test = self._test(node.test)
+        # while True: x = E ; if C1(x): break ; if C2(x): break ; REST     ->     while not C1(E) and not C2(E): REST
+        if isinstance(node.test, ast.Constant) and node.test.value is True and not node.orelse:
+            lead, k = [], 0
+            while k < len(node.body) and isinstance(node.body[k], ast.Assign) and len(node.body[k].targets) == 1 and isinstance(node.body[k].targets[0], ast.Name):
+                lead.append(node.body[k])
+                k += 1
+            guards = []
+            while k < len(node.body) and isinstance(node.body[k], ast.If) and not node.body[k].orelse and len(node.body[k].body) == 1 and isinstance(node.body[k].body[0], ast.Break):
+                guards.append(node.body[k])
+                k += 1
+            rest = node.body[k:]
+            names = [a.targets[0].id for a in lead]
+            used_in_rest = any(isinstance(n, ast.Name) and n.id in names for b in rest for n in ast.walk(b))
+            pure = all(not any(isinstance(n, (ast.Call, ast.NamedExpr, ast.Lambda)) for n in ast.walk(a.value)) for a in lead)
+            if guards and rest and not used_in_rest and pure and len(set(names)) == len(names) and not _binds_loop_exit(rest):
+                mp = {}
+                for a in lead:
+                    class _S0(ast.NodeTransformer):
+                        def visit_Name(s_, n):
+                            return copy.deepcopy(mp[n.id]) if n.id in mp and isinstance(n.ctx, ast.Load) else n
+
+                    mp[a.targets[0].id] = _S0().visit(copy.deepcopy(a.value))
+
+                class _S(ast.NodeTransformer):
+                    def visit_Name(s_, n):
+                        return copy.deepcopy(mp[n.id]) if n.id in mp and isinstance(n.ctx, ast.Load) else n
+
+                conds = [_negate(_S().visit(copy.deepcopy(g.test))) for g in guards]
+                node.test = conds[0] if len(conds) == 1 else ast.copy_location(ast.BoolOp(op=ast.And(), values=conds), node)
+                node.body = rest
+                ast.fix_missing_locations(node)
+                node.test = self._test(node.test)
         node.body = _loop_guards(node.body)
         return node
 
